@@ -138,6 +138,8 @@ package aws
 // in the same scan builds on the real desired capacity
 //@   ensures [C07] old(synced(n)) ==> synced(n)
 //@   ensures desired(n) <= old(desired(n)) && amin(n) == old(amin(n)) && amax(n) == old(amax(n))
+// C19 (and C07): the cached desired capacity, which the minimum pre-checks of the next request read, drops by exactly the number of terminations the ASG accepted, also when a later call fails
+//@   ensures [C07,C19] n.asg.DesiredCapacity != nil ==> desired(n) == old(desired(n)) - (Jlen == old(Jlen) || Jok[Jlen - 1] ? Jlen - old(Jlen) : Jlen - old(Jlen) - 1)
 //@   ensures [C19] old(desired(n)) <= amin(n) || old(desired(n)) - len(nodes) < amin(n) ==> err != nil && Jlen == old(Jlen)
 //@   ensures [C19] Jlen - old(Jlen) <= len(nodes) && (Jlen > old(Jlen) ==> Jlen - old(Jlen) <= old(desired(n)) - amin(n))
 //@   ensures [C19] forall k :: old(Jlen) <= k && k < Jlen ==> Jkind[k] == A_TERMASG && Jnum[k] == 1 && (exists i :: firstAt(n, nodes[k - old(Jlen)].Spec.ProviderID, i) && Jname[k] == deref(n.asg.Instances[i].InstanceId))
@@ -147,6 +149,7 @@ package aws
 //@   modifies cell(n.asg.DesiredCapacity)
 //@   invariant Jlen == old(Jlen) + #i && ajprefix(old(Jlen))
 //@   invariant [C07] old(synced(n)) ==> synced(n)
+//@   invariant [C07,C19] n.asg.DesiredCapacity != nil ==> desired(n) == old(desired(n)) - #i
 //@   invariant desired(n) <= old(desired(n)) && amin(n) == old(amin(n)) && amax(n) == old(amax(n)) && instOK(n)
 //@   invariant forall k :: old(Jlen) <= k && k < Jlen ==> Jkind[k] == A_TERMASG && Jnum[k] == 1 && Jok[k] && (exists i :: firstAt(n, nodes[k - old(Jlen)].Spec.ProviderID, i) && Jname[k] == deref(n.asg.Instances[i].InstanceId))
 //@ loop #1
